@@ -1,34 +1,62 @@
 from vlib import *
 
 KIND = {"p2pkh": "P2PKH", "p2tr": "P2TR", "p2wpkh": "P2WPKH", "np2wpkh": "NP2WPKH"}
+CHKIND = {"p2pkh": "ChP2PKH", "np2wpkh": "ChNP2WPKH", "p2wpkh": "ChP2WPKH", "p2tr": "ChP2TR"}
 SCRIPT_LEN = {"p2pkh": 25, "p2sh": 23, "np2wpkh": 23, "p2wpkh": 22, "p2wsh": 34, "p2tr": 34, "": 0}
 WITNESS = {"p2wpkh", "p2wsh", "p2tr"}
 
 
 class C07(Check):
     ID = "C07"
-    RULE = ("systematic: requested-output counts {0,1,2,3,251,252,253,254} x 4 change script types x 4 input kinds x "
-            "{relay floor, one higher rate} (+ 65534/65535 outputs in the thorough tier); mixed-kind coin sets at 251..253 outputs; "
-            "amount boundaries: 1..7 coins of mixed P2PKH/P2TR/P2WPKH/nested-P2WPKH kinds whose total is outputs + required fee + "
-            "{-dust,-1,0,+1,dust/2,dust-1,dust,dust+1,10*dust}; single coin of each kind at exactly its own required fee; "
-            "random: 0..30 outputs of mixed P2PKH/P2SH/P2WPKH/P2WSH/P2TR scripts, 0..12 coins, rates 1000..10^6; "
-            "every authored transaction is signed with real secp256k1 keys by txauthor.AddAllInputScripts, every input verified "
-            "with the txscript engine, and measured with mempool.GetTxVirtualSize; plus unit cases of FeeForSerializeSize, "
-            "EstimateVirtualSize and IsDustOutput.  non-trivial = authoring case with at least one coin, or a unit case; distinct by input")
+    RULE = ("txauthor level (real NewUnsignedTransaction over the wallet's REAL input sources, reached through the verif hooks: "
+            "makeInputSource, and constantInputSource for the 'fixed' cases): requested-output counts {0,1,2,3,251,252,253,254} x 4 change "
+            "script types x 4 input kinds x {relay floor, one higher rate} (+ 65534/65535 outputs in the thorough tier); mixed-kind coin "
+            "sets at 251..253 outputs; amount boundaries: 1..7 coins of mixed P2PKH/P2TR/P2WPKH/nested-P2WPKH kinds whose total is outputs + "
+            "required fee + {-dust,-1,0,+1,dust/2,dust-1,dust,dust+1,10*dust}; single coin of each kind at exactly its own required fee; "
+            "ladders (one more coin per round); random: 0..30 outputs of mixed P2PKH/P2SH/P2WPKH/P2WSH/P2TR scripts, 0..12 coins, rates "
+            "1000..10^6; P2PKH coins held by an UNCOMPRESSED key.  wallet level (a fresh real wallet per case, coins paid to it in a "
+            "confirmed block): CreateSimpleTx / SendOutputs(WithInput) / FundPsbt (automatic selection and caller-supplied inputs) x every "
+            "input kind under its own scope, all kinds with no scope x change scopes {none,44,49,84,86}, nested-P2WPKH change through a "
+            "watch-only account with the traditional BIP-49 schema, explicit selections larger than needed, imported keys incl. an "
+            "UNCOMPRESSED one, 252/253/254/255/~260 inputs, 251/252/253 requested outputs, the random selector, outputs CheckOutput must "
+            "refuse, and amount boundaries as above; the change source's declared script size against the script it produces for every "
+            "change scope.  Every authored transaction is signed with real secp256k1 keys (by the wallet, or by AddAllInputScripts with the "
+            "wallet's keys where the entry point hands out an unsigned transaction), every input verified with the txscript engine, and "
+            "measured with mempool.GetTxVirtualSize; the oracle judges the SIGNED transaction against the harness's own ledger of coin "
+            "values; plus unit cases of FeeForSerializeSize, EstimateVirtualSize, IsDustOutput and CheckOutput.  non-trivial = authoring "
+            "case with at least one coin, or a unit case; distinct by input")
     N_QUICK = 600
     N_THOROUGH = 6000
     SHARD = 300
     ASSUMPTIONS = [
-        "input source = prefix accumulator over a fixed arrangement (wallet.makeInputSource); coin values and output values are non-negative",
-        "fee rate >= 0 for termination, >= the relay floor (1000 sat/kvB) for the fee-rate bound; int64 wrap-around not modelled",
-        "inputs are P2PKH/P2WPKH/nested-P2WPKH/P2TR-keyspend with compressed keys; the change script has the declared ScriptSize > 0",
-        "admissible signatures: DER length <= 72 (<= 71, i.e. low-S as btcec signs, for P2PKH inputs of a transaction that also has witness inputs), Schnorr <= 65",
+        "input source = makeInputSource over a fixed arrangement, or constantInputSource over an explicit selection; the arrangement itself "
+        "(largest first / random, eligibility) is C06's; for the random selector the model is given the prefix the selector took; "
+        "coin values and output values are non-negative",
+        "fee rate >= 0 for termination, >= the relay floor (1000 sat/kvB) for the fee-rate bound; int64 wrap-around not modelled "
+        "(amounts are mathematical integers; the harness checks every output and the output sum against [0, MaxSatoshi])",
+        "inputs are P2PKH/P2WPKH/nested-P2WPKH/P2TR-keyspend; the change source declares a positive script size",
+        "admissible signatures (exact): ECDSA DER length <= 72 (<= 71, i.e. low-S as btcec signs, for P2PKH inputs of a transaction that "
+        "also has witness inputs) + sighash byte, compressed 33-byte public key; Schnorr <= 65; a P2PKH input signed with an "
+        "UNCOMPRESSED 65-byte key is admissible only when the regenerated fact p2pkh_covers_uncompressed is true - it is false now, "
+        "C07_uncompressed_key_refuted is the witness, the implementation underpays there (known finding fee_below_rate_uncompressed_key)",
+        "fee >= rate applied to the real size means fee >= floor(rate * vsize / 1000), the rounding of every fee computation of the wallet",
     ]
-    EXTRA_TRUSTED = ["btcd blockchain.WitnessScaleFactor = 4 and btcutil.MaxSatoshi are model constants (not regenerated: outside the repository)",
-                     "lib/extract_c07.py: regex reading of size.go / rules.go / author.go; when the shape is not recognised, facts "
-                     "fitted to probes of the built code (harness/cmd/extract-c07) and validated on a fixed grid - the split of a "
-                     "witness input's weight into base size and witness weight is then taken from the exported constants "
-                     "(only the weight is observable); evidence field facts_source says which path ran"]
+    PARTIAL_CLAUSES = [
+        "wallet-level cases with a nested-P2WPKH change script are reached only through a watch-only account created with "
+        "waddrmgr.NewAccountWatchingOnly (wallet.ImportAccount refuses regtest keys); the harness signs those itself",
+        "FundPsbt sorts the packet (BIP 69) after authoring: the model has no sort, outputs and inputs of those cases are compared as multisets",
+    ]
+    EXTRA_TRUSTED = ["btcd blockchain.WitnessScaleFactor = 4, btcutil.MaxSatoshi and the script lengths txscript.PayToAddrScript produces "
+                     "(25/23/22/34) are model constants (not regenerated: outside the repository); the lengths are compared with the "
+                     "scripts a real wallet's change source produces in every run (changesrc cases)",
+                     "lib/extract_c07.py: regex reading of size.go (const block, every term of baseSize and of the witness-weight block of "
+                     "EstimateVirtualSize) / rules.go / author.go / createtx.go (scriptSize switch of addrMgrWithChangeSource); when a shape "
+                     "is not recognised, facts fitted to probes of the built code (harness/cmd/extract-c07, incl. a real wallet's change "
+                     "source through the verif hook) and validated on a fixed grid - the split of a witness input's weight into base size "
+                     "and witness weight is then taken from the exported constants, marker+flag is taken as 2 (only sums are observable); "
+                     "evidence field facts_source says which path ran",
+                     "/repo/wallet/verif_hooks_c07.go (build tag verif): exports makeInputSource, constantInputSource and a rolled-back "
+                     "addrMgrWithChangeSource unchanged"]
 
     def extra_coverage(self, cases):
         # which path of lib/extract_c07.py produced the regenerated facts of this run
@@ -44,13 +72,20 @@ class C07(Check):
 
     def nontrivial(self, c):
         i = c["in"]
+        if i["kind"] == "wallet":
+            return len(i.get("wcoins") or []) > 0
         return i["kind"] != "author" or len(i["coins"]) > 0
 
     def sample(self, c):
         c = json.loads(json.dumps(c))
-        if len(c["in"].get("outs", [])) > 6:
+        if len(c["in"].get("outs") or []) > 6:
             n = len(c["in"]["outs"])
             c["in"]["outs"] = c["in"]["outs"][:3] + ["... %d outputs in total" % n]
+        if len(c["in"].get("sel") or []) > 8:
+            c["in"]["sel"] = c["in"]["sel"][:3] + ["... %d selected in total" % len(c["in"]["sel"])]
+        for f in ("sig_lens", "pk_lens", "in_kinds"):
+            if len(c["obs"].get(f) or []) > 8:
+                c["obs"][f] = c["obs"][f][:3] + ["... %d in total" % len(c["obs"][f])]
         return c
 
     # -- shrinking: greedy simplification, every candidate re-run on the implementation
@@ -118,20 +153,60 @@ class C07(Check):
                 break
         return best
 
+    def evaluate_model(self, cases):
+        """as Check.evaluate_model, the shards evaluated concurrently (each is its own coqc process)"""
+        from concurrent.futures import ThreadPoolExecutor
+        starts = list(range(0, len(cases), self.SHARD))
+
+        def one(start):
+            text = self.render_cases(cases[start:start + self.SHARD])
+            return start, coq_eval(self.ID, text, "cases_%d" % start)
+
+        mism, logs, problems = [], "", []
+        with ThreadPoolExecutor(max_workers=4) as ex:
+            results = list(ex.map(one, starts))
+        for start, (rc, out, err) in results:
+            logs += out[-2000:] + err[-2000:]
+            if rc != 0:
+                problems.append("correspondence: cases file does not evaluate: " + err[-1500:])
+                continue
+            bad = parse_nat_list(parse_printed(out, "bad"))
+            if bad is None:
+                problems.append("correspondence: could not parse model output: " + out[-500:])
+                continue
+            mism.extend(start + b for b in bad)
+        return sorted(mism), logs, problems
+
     def render_cases(self, cases):
-        def outs(os_):
-            # run-length encoded, so that 65535 equal outputs stay a short term
+        def runs_of(items):
             runs = []
-            for o in os_:
-                x = "mkOut %s %s" % (cZ(o["v"]), cZ(SCRIPT_LEN[o["t"]]))
+            for x, n in items:
                 if runs and runs[-1][0] == x:
-                    runs[-1][1] += 1
+                    runs[-1][1] += n
                 else:
-                    runs.append([x, 1])
+                    runs.append([x, n])
+            return runs
+
+        def rl(runs):
+            # run-length encoded, so that 65535 equal outputs / 300 equal coins stay a short term
+            if not runs:
+                return "[]"
             if not any(n > 8 for _, n in runs):
                 return clist([x for x, n in runs for _ in range(n)])
             return "(" + " ++ ".join("repeat (%s) (Z.to_nat %d)" % (x, n) if n > 8 else clist([x] * n)
                                      for x, n in runs) + ")"
+
+        def outs(os_):
+            return rl(runs_of(("mkOut %s %s" % (cZ(o["v"]), cZ(SCRIPT_LEN[o["t"]])), 1) for o in os_))
+
+        def wouts(os_):
+            return rl(runs_of(("mkOut %s %s" % (cZ(o["v"]), cZ(o["l"])), o["n"]) for o in os_))
+
+        def wcoins(cs):
+            return rl(runs_of(("(%s, %s)" % (KIND[x["k"].split("-")[0]], cZ(x["v"])), x["n"]) for x in cs))
+
+        def sigs(o):
+            return clist(["(%s, %s)" % (cZ(s), cZ(p)) for s, p in zip(o["sig_lens"], o["pk_lens"])])
 
         rows = []
         for c in cases:
@@ -140,14 +215,30 @@ class C07(Check):
             if k == "author":
                 err = 0 if o["err"] == "" else (1 if o["err"] == "insufficient" else 2)
                 ob = ("{| o_err := %s; o_rounds := %s; o_in_kinds := %s; o_est := %s; o_total_in := %s; o_fee := %s; "
-                      "o_change_idx := %s; o_change_amt := %s; o_nout := %s; o_sigs := %s; o_real_vsize := %s |}") % (
+                      "o_has_change := %s; o_change_amt := %s; o_nout := %s; o_sigs := %s; o_real_vsize := %s |}") % (
                     cZ(err), cZ(o["rounds"]), clist([KIND[x] for x in o["in_kinds"]]), cZ(o["est_size"]),
-                    cZ(o["total_in"]), cZ(o["fee"]), cZ(o["change_idx"]), cZ(o["change_amt"]), cZ(o["nout"]),
-                    clist([cZ(s) for s in o["sig_lens"]]), cZ(o["real_vsize"]))
-                rows.append("CAuthor %s %s %s %s %s %s" % (
-                    outs(i["outs"]), cZ(i["rate"]),
-                    clist(["(%s, %s)" % (KIND[x["k"]], cZ(x["v"])) for x in i["coins"]]),
+                    cZ(o["total_in"]), cZ(o["fee"]), cbool(o["change_idx"] >= 0), cZ(o["change_amt"]), cZ(o["nout"]),
+                    sigs(o), cZ(o["real_vsize"]))
+                rows.append("CAuthor %s %s %s %s %s %s %s" % (
+                    cbool(i.get("fixed", False)), outs(i["outs"]), cZ(i["rate"]),
+                    clist(["(%s, %s)" % (KIND[x["k"].split("-")[0]], cZ(x["v"])) for x in i["coins"]]),
                     cZ(SCRIPT_LEN[i["change"]]), cbool(i["change"] in WITNESS), ob))
+            elif k == "wallet":
+                explicit = len(i.get("sel") or []) > 0
+                api = i["api"]
+                err = {"": 0, "insufficient": 1, "refused:negative": 11, "refused:exceeds_max": 12, "refused:dust": 13}.get(o["err"], 2)
+                ob = ("{| w_err := %s; w_inputs := %s; w_outs := %s; w_change_idx := %s; w_ordered := %s; w_total_in := %s; "
+                      "w_fee := %s; w_sigs := %s; w_real_vsize := %s |}") % (
+                    cZ(err), wcoins(o["win"]), wouts(o["wout"]), cZ(o["change_idx"]),
+                    # txToOutputs swaps the change output with the output at the drawn index; FundPsbt then
+                    # sorts the packet (BIP 69): there only the multiset of outputs is the model's
+                    cbool(api in ("create", "send")), cZ(o["total_in"]), cZ(o["fee"]), sigs(o), cZ(o["real_vsize"]))
+                rows.append("CWallet %s %s %s %s %s %s %s %s" % (
+                    cbool(api in ("send", "fundpsbt")),                 # txrules.CheckOutput guards the entry point
+                    cbool(explicit), cbool(not (api == "fundpsbt" and explicit)),
+                    outs(i["outs"]), cZ(i["rate"]), CHKIND[o["chkind"]], wcoins(o["arr"]), ob))
+            elif k == "changesrc":
+                rows.append("CChangeSrc %s %s %s" % (CHKIND[o["chkind"]], cZ(o["val"]), cZ(o["chlen"])))
             elif k == "fee":
                 rows.append("CFee %s %s %s" % (cZ(i["rate"]), cZ(i["size"]), cZ(o["val"])))
             elif k == "est":
@@ -157,6 +248,9 @@ class C07(Check):
             elif k == "dust":
                 rows.append("CDust %s %s %s %s" % (cZ(i["value"]), cZ(SCRIPT_LEN[i["change"]]),
                                                    cbool(i["change"] in WITNESS), cbool(o["flag"])))
+            elif k == "checkout":
+                rows.append("CCheckOut %s %s %s %s" % (cZ(i["value"]), cZ(SCRIPT_LEN[i["change"]]),
+                                                       cbool(i["change"] in WITNESS), cZ(o["val"])))
             else:
                 raise ValueError("case kind " + k)
         return """From Verif Require Import Base.Prelude Fee.Fee Fee.FeeCorr.
